@@ -54,7 +54,15 @@ class StmtMixin:
                 if hit and inloop and self.loop_depth == 0:
                     hit = False
             elif pat.startswith("call:"):
-                hit = isinstance(s, ast.Expr) and isinstance(s.value, ast.Call) and ast.unparse(s.value.func) == pat[5:]
+                name, _, ordinal = pat[5:].partition("#")
+                hit = isinstance(s, ast.Expr) and isinstance(s.value, ast.Call) and ast.unparse(s.value.func) == name
+                if hit and ordinal:
+                    # 'call:f#k': the k-th statement (in source order) of the function that is a call of f -- independent of
+                    # how the arguments are spelled
+                    sites = [x for x in ast.walk(self.unit.fdef) if isinstance(x, ast.Expr) and isinstance(x.value, ast.Call)
+                             and ast.unparse(x.value.func) == name]
+                    sites.sort(key=lambda x: (x.lineno, x.col_offset))
+                    hit = int(ordinal) < len(sites) and sites[int(ordinal)] is s
             else:
                 hit = src == pat
             if hit:
